@@ -54,6 +54,25 @@ impl Hasher for Chunked {
 			self.0 = self.0.wrapping_mul(0x100000001b3).rotate_left(5);
 		}
 	}
+	// integers are folded in their own way (as aHash and FxHash do): `write_u8(b)` is not `write(&[b])`
+	fn write_u8(&mut self, i: u8) {
+		self.0 = (self.0 ^ 0x01 ^ ((i as u64) << 8)).wrapping_mul(0x9e3779b97f4a7c15).rotate_left(7);
+	}
+	fn write_u16(&mut self, i: u16) {
+		self.0 = (self.0 ^ 0x02 ^ ((i as u64) << 8)).wrapping_mul(0x9e3779b97f4a7c15).rotate_left(7);
+	}
+	fn write_u32(&mut self, i: u32) {
+		self.0 = (self.0 ^ 0x04 ^ ((i as u64) << 8)).wrapping_mul(0x9e3779b97f4a7c15).rotate_left(7);
+	}
+	fn write_u64(&mut self, i: u64) {
+		self.0 = (self.0 ^ 0x08 ^ i.rotate_left(8)).wrapping_mul(0x9e3779b97f4a7c15).rotate_left(7);
+	}
+	fn write_usize(&mut self, i: usize) {
+		self.0 = (self.0 ^ 0x10 ^ (i as u64).rotate_left(8)).wrapping_mul(0x9e3779b97f4a7c15).rotate_left(7);
+	}
+	fn write_isize(&mut self, i: isize) {
+		self.0 = (self.0 ^ 0x20 ^ (i as u64).rotate_left(8)).wrapping_mul(0x9e3779b97f4a7c15).rotate_left(7);
+	}
 }
 
 pub fn h2<T: ?Sized + Hash>(v: &T) -> (u64, u64, u64) {
@@ -328,7 +347,7 @@ impl Prop for C08 {
 	const ID: &'static str = "C08";
 
 	fn rule() -> String {
-		"cases = the C07 triples (family, kind, a, b, c: chains of metamorphic variants or independent values; ill-formed %XX octets included). Oracle (metamorphic): on all 9 ordered pairs: a == b => equal hashes under three fixed hashers (std DefaultHasher with fixed keys, FNV-1a written in the harness, and a hasher sensitive to how the bytes are split over `write` calls, as FxHash/aHash are); cmp antisymmetric, cmp == Equal <=> ==, partial_cmp == Some(cmp); <= transitive over the 6 permutations; owned forms give the same answers as borrowed forms; all 23 cross-type PartialOrd impls agree; the four forms RiRef/RiRefBuf/Ri/RiBuf of one text hash identically; for every Borrow<U> for K between the library's own types (every TBuf->T, DataUrlBuf->DataUrl, RiBuf->RiRef, Ri->RiRef, Uri/UriBuf->Iri/IriRef): hash(k) == hash(k.borrow()), cmp and == agree, HashSet<K>/BTreeSet<K> lookups through the view of an equal value hit and of an unequal value miss. The same laws on a value paired with up to 4 prefix VIEWS of its own buffer (same start address). Non-trivial: an equal-but-textually-different pair, or a lookup through a view of another type.".into()
+		"cases = the C07 triples (family, kind, a, b, c: chains of metamorphic variants or independent values; ill-formed %XX octets included). Oracle (metamorphic): on all 9 ordered pairs: a == b => equal hashes under three fixed hashers (std DefaultHasher with fixed keys, FNV-1a written in the harness, and a hasher sensitive to how the bytes are split over `write` calls and to which integer method is used, as FxHash/aHash are); cmp antisymmetric, cmp == Equal <=> ==, partial_cmp == Some(cmp); <= transitive over the 6 permutations; owned forms give the same answers as borrowed forms; all 23 cross-type PartialOrd impls agree; the four forms RiRef/RiRefBuf/Ri/RiBuf of one text hash identically; for every Borrow<U> for K between the library's own types (every TBuf->T, DataUrlBuf->DataUrl, RiBuf->RiRef, Ri->RiRef, Uri/UriBuf->Iri/IriRef): hash(k) == hash(k.borrow()), cmp and == agree, HashSet<K>/BTreeSet<K> lookups through the view of an equal value hit and of an unequal value miss. The same laws on a value paired with up to 4 prefix VIEWS of its own buffer (same start address). Non-trivial: an equal-but-textually-different pair, or a lookup through a view of another type.".into()
 	}
 
 	fn cases(tier: Tier) -> u64 {
